@@ -3,7 +3,8 @@
 // FunctionFormatter / FunctionHandler with scripted deterministic behaviours, SeqNumberAttr /
 // DuplicateFilter / LevelFilter (thin logging subclasses that call the real virtual), a recording
 // Sink, null entries through append(initializer_list), one QSharedPointer inserted at several
-// places), processes the message sequence - interleaved with structural edits of any pipeline of the
+// places, children that enter the tree as COPIES of a built pipeline object: copy constructor, the by-value
+// helper operator<<(Logger *, const Pipeline &), copy assignment - token suffix ~<how>), processes the message sequence - interleaved with structural edits of any pipeline of the
 // tree through append / operator<< / the fluent calls / append(list) / remove / clear / the typed
 // SortedPipeline calls and clear<Class>() - and prints what every leaf's function saw/returned.
 // Attribute values are typed (QString, int, bool, double, QByteArray); deliveries print type + value.
@@ -93,7 +94,53 @@ struct LoggedLevel : LevelFilter {
     bool filter(const LogMessage &m) override { bool r = LevelFilter::filter(m); logx(id, r); return r; }
 };
 
-struct Frame { Pipeline *p; SimplePipeline *sp; bool fluent_child; };
+// `pending`/`how`: the child is being built in an object that is NOT in the tree; at its ')' a COPY of it is attached
+struct Frame { Pipeline *p; SimplePipeline *sp; bool fluent_child; PipelinePtr pending = PipelinePtr(); int how = 0; bool scoped = false; };
+
+// ---- children that enter the tree as COPIES of an already built pipeline object (token suffix ~<how>) -------------
+// how: 1 copy constructor (`PipelinePtr::create(existing)`) once the original is complete, 2 the library's by-value
+// helper `operator<<(Logger *, const Pipeline &)` once the original is complete, 3 copy constructor of the still EMPTY
+// original (the handlers then go into the copy), 4 copy ASSIGNMENT onto an object constructed with the opposite
+// scoped flag and a stray sink in its list.  A SimplePipeline child stays a SimplePipeline (later typed edits
+// address it), so the slicing helper (2) is used for plain Pipeline children only.
+static PipelinePtr copy_of(const PipelinePtr &orig, bool simple, bool scoped, int how)
+{
+    if (simple) {
+        auto o = orig.staticCast<SimplePipeline>();
+        if (how == 4) {
+            auto q = SimplePipelinePtr::create(!scoped);
+            q->append(QSharedPointer<RecSink>::create(9999));
+            *q = *o;
+            return q;
+        }
+        return SimplePipelinePtr::create(*o);
+    }
+    if (how == 2) {
+        static Logger lg;
+        lg.clear();
+        &lg << *orig;
+        const auto &l = static_cast<const Pipeline &>(lg).handlers();
+        PipelinePtr q = l.isEmpty() || !l.last() ? PipelinePtr() : l.last().dynamicCast<Pipeline>();
+        lg.clear();
+        return q;
+    }
+    if (how == 4) {
+        auto q = PipelinePtr::create(!scoped);
+        q->append(QSharedPointer<RecSink>::create(9999));
+        *q = *orig;
+        return q;
+    }
+    return PipelinePtr::create(*orig);
+}
+// "(+~2" -> base "(+", how 2
+static int split_how(QString &k)
+{
+    const int i = k.indexOf('~');
+    if (i < 0) return 0;
+    const int how = k.mid(i + 1).toInt();
+    k = k.left(i);
+    return how;
+}
 
 // what a leaf token describes: a scripted function of one of the four std::function kinds, or a ready object
 struct Spec {
@@ -234,9 +281,16 @@ static void apply_edit(Ctx &c, SimplePipeline *root, const QString &tok)
     }
     if (op != "a" && op != "t") { c.fail("bad edit op"); return; }
     if (arg == "z") { if (op == "a") cur->append(HandlerPtr()); else so->appendSink(SinkPtr()); return; }   // a null handler is ignored
-    if (arg == "(" || arg == "(-" || arg == "(+") {
-        PipelinePtr q = arg == "(" ? PipelinePtr(SimplePipelinePtr::create(false)) : PipelinePtr::create(arg == "(+");
+    QString base = arg;
+    const int how = arg.startsWith('(') ? split_how(base) : 0;
+    if (base == "(" || base == "(-" || base == "(+") {
+        PipelinePtr q = base == "(" ? PipelinePtr(SimplePipelinePtr::create(false)) : PipelinePtr::create(base == "(+");
         c.keep.push_back(q);
+        if (how) {      // the (empty) child enters the tree as a copy
+            q = copy_of(q, base == "(", base == "(+", how);
+            if (!q) { c.fail("the by-value helper did not add a pipeline"); return; }
+            c.keep.push_back(q);
+        }
         if (op == "a") cur->append(HandlerPtr(q)); else so->appendPipeline(q);
         return;
     }
@@ -273,11 +327,25 @@ int main()
         std::string tok;
         while (ts >> tok) {
             const QStringList p = QString::fromStdString(tok).split(':');
-            const QString k = p[0];
+            QString k = p[0];
+            const int how = k.startsWith('(') ? split_how(k) : 0;
             Pipeline *cur = stack.back().p; SimplePipeline *sp = stack.back().sp;
             if (k == "(" || k == "(-" || k == "(+") {
-                if (k == "(") { auto ch = SimplePipelinePtr::create(false); c.keep.push_back(ch); cur->append(HandlerPtr(ch)); stack.push_back(Frame{ ch.data(), ch.data(), false }); }
-                else { auto ch = PipelinePtr::create(k == "(+"); c.keep.push_back(ch); if (stack.size() % 2) cur->append(HandlerPtr(ch)); else *cur << ch; stack.push_back(Frame{ ch.data(), nullptr, false }); }
+                const bool simple = k == "(", scoped = k == "(+";
+                PipelinePtr ch = simple ? PipelinePtr(SimplePipelinePtr::create(false)) : PipelinePtr::create(scoped);
+                c.keep.push_back(ch);
+                if (how == 1 || how == 2 || how == 4) {     // built detached; the copy is made and attached at ')'
+                    Frame f{ ch.data(), simple ? static_cast<SimplePipeline *>(ch.data()) : nullptr, false };
+                    f.pending = ch; f.how = how; f.scoped = scoped;
+                    stack.push_back(f);
+                    continue;
+                }
+                if (how) {                                   // 3: copy of the empty original, filled afterwards
+                    ch = copy_of(ch, simple, scoped, 1);
+                    c.keep.push_back(ch);
+                }
+                if (simple || stack.size() % 2) cur->append(HandlerPtr(ch)); else *cur << ch;
+                stack.push_back(Frame{ ch.data(), simple ? static_cast<SimplePipeline *>(ch.data()) : nullptr, false });
                 continue;
             }
             if (k == "(!") {
@@ -289,6 +357,12 @@ int main()
                 if (stack.size() < 2) { c.bad = true; continue; }
                 Frame f = stack.back(); stack.pop_back();
                 if (f.fluent_child && &f.sp->end() != stack.back().sp) c.bad = true;   // end() must return the parent
+                if (f.pending) {
+                    PipelinePtr q = copy_of(f.pending, f.sp != nullptr, f.scoped, f.how);
+                    if (!q) { c.fail("the by-value helper did not add a pipeline"); continue; }
+                    c.keep.push_back(q);
+                    if (f.sp || stack.size() % 2) stack.back().p->append(HandlerPtr(q)); else *stack.back().p << q;
+                }
                 continue;
             }
             if (k == "z") { cur->append(std::initializer_list<HandlerPtr>{ HandlerPtr() }); continue; }
